@@ -54,6 +54,15 @@ func c03Names(r *vRng, thorough bool) []string {
 		"ü", "bo\xffb", "bob\x7f", "bob:1", "bob;", "bob*", "b?b", "b\\b", "~bob", "$bob", "bob%00",
 		strings.Repeat("a", 249), strings.Repeat("a", 250), strings.Repeat("a", 255), strings.Repeat("a", 256), strings.Repeat("a", 4096),
 		strings.Repeat("../", 40) + "tmp/x", "alice.user", "alice.admin", ".tmp", ".tmp/x", "root", "carol"}
+	// characters outside ASCII whose code point, truncated to a byte or folded, lands on an allowed
+	// character (homoglyphs, wide forms, code points that are c + k*256), alone and inside a name
+	for _, c := range []rune("a0bzAZ9-_.@") {
+		for _, off := range []rune{0x100, 0x400, 0x4E00, 0x1F400, 0xFEE0} {
+			u := string(c + off)
+			names = append(names, u, "al"+u+"ce", u+"lice", "alic"+u)
+		}
+	}
+	names = append(names, "\u0430dmin", "\u0162ob", "bo\u0301b", "\uff41lice", "alice\u200b", "\u202ealice", "al\u00adice", "\xc0\xaflice", "ali\xed\xa0\x80ce", "\xe2\x80")
 	alpha := []byte("ab0-._@/ \n\x00A~:Z9\xff\\*")
 	for _, c := range alpha {
 		names = append(names, string([]byte{c}))
